@@ -169,7 +169,7 @@ func (g *c05gen) cmd(ci int, profile string) []B {
 		case 0, 1:
 			return bs("hset", k, f, g.val(ci))
 		case 2:
-			return bs("hget", k, f)
+			return bs("hget", k, pick(r, []string{f, f, "n"}))
 		case 3:
 			return bs("hdel", k, f)
 		case 4:
@@ -210,6 +210,7 @@ func genC05(r *core.Rand, env *core.Env, run int) *Scenario {
 	sc := &Scenario{Kind: "C05"}
 	sc.Knobs = Knobs{ShardNum: pick(r, []int{1, 1, 2, 3, 8, 1024}), Databases: 1, YieldRMW: r.Bool(0.8), MaxSteps: 30000,
 		Strategy: pick(r, []int{0, 0, 1, 1, 2, 3}), PreemptPct: pick(r, []int{5, 15, 30, 50})}
+	sc.Knobs.ReplyYield = r.Bool(0.5)
 	profile := pick(r, []string{"reg", "ctr", "list", "set", "hash", "zset", "mixed", "mixed"})
 	nk := 1 + r.Intn(3)
 	g := &c05gen{r: r, fam: map[string]string{}}
